@@ -867,19 +867,29 @@ class C06(Property):
         "WF_of_wfB", "C06_full_fails",
         "userFields_preparedFields", "compound_fields_history_independent", "compoundInit_stores",
         "compoundInit_preparedFrom", "lookup_ne_preparedFrom", "frame_lazy", "step_lazy_state",
+        "WF_step", "WF_run", "ctor_new_or_unchanged", "inst_shape", "step_shape", "mroOf_run",
+        "frame_step", "frame_history", "frame_history_observe", "c06_histories_partial", "histGuard_of_no_lazy",
+        "ChainWF_step", "frame_step_any", "frame_history_any", "frame_history_noFields", "preparedOf_history",
+        "C06_full_history_fails",
     )]
-    level_text = "proof (partial: one-step frame with hypothesis lazyPrep = none; KF-C06-a open)"
-    level_note = ("PROVED for every well-formed store of the model: frame / frame_partial / frame_observe (ONE step, hypothesis "
-                  "lazyPrep σ s = none: no attribute, list content or property of a pre-existing class changes), frame_lazy "
-                  "(a lazily preparing instantiation of p changes only field_schema and only of classes with p in their MRO), "
-                  "instance_local (a non-compound instantiation leaves the model store unchanged — model stores hold classes of "
-                  "one element kind only, so containers with compound members are outside it), schema_fields (Nodup + overlay), "
-                  "compound_fields_history_independent (regeneration rule).  REFUTED: C06_Full (C06_full_fails) = open finding "
-                  "KF-C06-a (lazy preparation rebinds field_schema of the prepared class and its inheriting descendants).  NOT "
-                  "PROVED: well-formedness along histories (no WF_step: the frame theorems are one-step; WF is re-checked "
-                  "decidably after every step by the runner), 'the returned class is a new direct subclass' (oracle clause "
-                  "new-subclass only), general history independence beyond the compound regeneration rule (oracle clause "
-                  "history-independent only), containers holding compounds (oracle only, has_model = False)")
+    level_text = "proof (partial: frame theorem over all histories under the guard 'no lazy preparation of the observed class or an ancestor'; KF-C06-a open)"
+    level_note = ("PROVED for every well-formed store of the model and EVERY history of steps: WF_step / WF_run (well-formedness "
+                  "is kept by every step, raising and lazily preparing ones included — the runner's decidable re-check is now a "
+                  "cross-check), ctor_new_or_unchanged ('the returned class is new': a constructor either raises and leaves the "
+                  "store as it was, or adds exactly one class whose id is the old class count, a direct subclass of the target "
+                  "of the same kind; no old MRO changes — step_shape, mroOf_run), frame_history / frame_history_observe / "
+                  "c06_histories_partial (along any chain, a class that existed at the start keeps every attribute, list "
+                  "content and property, under the decidable guard histGuard: no step lazily prepares that class or one of "
+                  "its ancestors; lazy preparation of unrelated classes is allowed), frame_history_any / "
+                  "frame_history_noFields / preparedOf_history (NO guard, single-inheritance stores — ChainWF, kept by every "
+                  "step: every attribute other than field_schema, the properties and the user-supplied members of "
+                  "field_schema are kept along every history; the member list a class gets when prepared is the same at "
+                  "every point of every history).  One-step: frame, frame_partial, frame_observe, frame_step, frame_lazy, "
+                  "instance_local (model stores hold classes of one element kind only, so containers with compound members "
+                  "are outside it), schema_fields (Nodup + overlay), compound_fields_history_independent.  REFUTED: C06_Full "
+                  "(C06_full_fails) and C06_Full_history (C06_full_history_fails) = open finding KF-C06-a (lazy preparation "
+                  "rebinds field_schema of the prepared class and its inheriting descendants).  NOT PROVED: containers "
+                  "holding compounds (oracle only, has_model = False)")
     technique = "Lean 4 model (class store + heap of list objects) + frame theorem by store extension; differential testing"
     trusted_base = [
         "Python's class machinery (type(), attribute lookup along a single-inheritance MRO, instance __dict__) is the "
